@@ -139,7 +139,7 @@ def _different_value(kind: str, cur: Any) -> Any:
 def _default_spec_value(f: M.FieldDef) -> Any:
     return {"int": 0, "bool": False, "optint": None, "enum": {"$e": "RED"}, "tint": {"$t": []},
             "ft": {"$t": [0, ""]}, "fsint": {"$fs": []}, "fsstr": {"$fs": []}, "str": "",
-            "float": 0.0, "path": {"$p": "x"}, "lit": "a", "optstr": None, "bytes": {"$b": ""}}[f.kind]
+            "float": 0.0, "path": {"$p": "x"}, "lit": "a", "optstr": None, "bytes": {"$b": ""}, "tfs": {"$t": []}}[f.kind]
 
 
 NEEDS = {
@@ -254,10 +254,24 @@ def mutate(spec: dict, kind: str, n: int) -> tuple[dict, dict, bool]:
             return a, b, False
         idx = nodes.index(x)
         pools = {"fs": [8, 16, 0, 24, -1, 32], "fss": ["b", "a", "zz", "", "aa", "c"], "ffs": _colliding_sets()}
-        fname = ("fs", "fss", "ffs")[n % 3]
-        k = 2 + (n // 3) % 4
+        fname = ("fs", "fss", "ffs", "ffs")[n % 4]
+        k = 2 + (n // 4) % 4
         elems = pools[fname][:k]
         perm = elems[1:] + elems[:1] if (n // 16) % 2 else list(reversed(elems))
+        if n % 8 == 7:
+            # a set inside a tuple, built in another element order
+            fname = "tfs"
+            inner = [0, 8, 16, 24][:k]
+            elems_t = {"$t": [{"$fs": inner}, {"$fs": [1]}]}
+            perm_t = {"$t": [{"$fs": list(reversed(inner))}, {"$fs": [1]}]}
+            spec_nodes(a)[idx]["node"].setdefault("p", {})[fname] = elems_t
+            x["node"].setdefault("p", {})[fname] = perm_t
+            return a, b, True
+        if n % 4 == 3:
+            # the *inner* sets are built in another element order (ints that collide in a small table)
+            inner = [0, 8, 16, 24][:k]
+            elems = [{"$fs": inner}, {"$fs": [1]}]
+            perm = [{"$fs": list(reversed(inner))}, {"$fs": [1]}]
         spec_nodes(a)[idx]["node"].setdefault("p", {})[fname] = {"$fs": elems}
         x["node"].setdefault("p", {})[fname] = {"$fs": perm}
         return a, b, True
@@ -340,8 +354,17 @@ def mutate(spec: dict, kind: str, n: int) -> tuple[dict, dict, bool]:
         pb = x["node"].setdefault("p", {})
         P, Q, R = ["1", "p", ""][n % 3], ["2", "", "q q"][(n // 3) % 3], ["3", "r", ""][(n // 9) % 3]
         sep = f"):{f2}=<class 'str'>("
-        pa[f1], pa[f2] = P + sep + Q, R
-        pb[f1], pb[f2] = P, Q + sep + R
+        if (n // 27) % 3 == 1:
+            # the escape character itself next to the framing: a value that ends in a backslash against
+            # a value that starts with the text of the frame
+            pa[f1], pa[f2] = P + "\\", Q + sep + R
+            pb[f1], pb[f2] = P + sep + Q + "\\", R
+        elif (n // 27) % 3 == 2:
+            pa[f1], pa[f2] = P + "\\" + sep + Q, R
+            pb[f1], pb[f2] = P + "\\", Q + sep + R
+        else:
+            pa[f1], pa[f2] = P + sep + Q, R
+            pb[f1], pb[f2] = P, Q + sep + R
         return a, b, True
     if kind == "int_vs_str":
         x = pick(lambda x: x["node"]["c"] == "Strs")
